@@ -3,7 +3,8 @@
    universally quantified parameters of every theorem. *)
 From Coq Require Import List NArith ZArith Bool.
 From PV Require Import Lib.AmmoBytes Lib.AmmoDecimal Lib.AmmoLines Model.AmmoCommon Model.AmmoUri
-  Model.AmmoUripost Model.AmmoRaw Model.AmmoJson
+  Model.AmmoUripost Model.AmmoRaw Model.AmmoJson Model.AmmoBufio Model.AmmoBufioClients Model.AmmoSched
+  Proofs.AmmoBufioProofs Proofs.AmmoBufioClientProofs Proofs.AmmoSchedProofs
   Proofs.AmmoBytesProofs Proofs.AmmoLinesProofs Proofs.AmmoDecimalProofs Proofs.AmmoUriProofs
   Proofs.AmmoUripostProofs Proofs.AmmoRawProofs Proofs.AmmoJsonProofs.
 Import ListNotations.
@@ -137,3 +138,113 @@ Example C07_json_example :
   exists es, read_array ex_url [d; d] = Some es /\ es <> [] /\
     json_array_decode ex_url cfg0 3 [d; d] = Some (map SDeliver (cycle_take 3 es es)).
 Proof. eexists. split; [vm_compute; reflexivity|]. split; [discriminate|vm_compute; reflexivity]. Qed.
+
+(* ---------- round 5: the readers under the decoders, and deliveries as objects ---------- *)
+
+(* bufio.Reader.ReadString('\n') (ReadSlice + collectFragments over a buffer of cap bytes filled by
+   Read calls that may return any 1..space bytes) returns exactly the line of the logical byte
+   stream, for every buffer size >= 1 and every cutting of the file into Read results: a line may span
+   any number of buffer fills.  err = io.EOF exactly when the stream ends without LF. *)
+Theorem C07_bufio_readstring_exact :
+  forall cap, (1 <= cap)%nat -> forall st, brd_wf st = true ->
+  exists data err st',
+    read_string_b cap st = RSData data err st' /\ brd_wf st' = true /\
+    (err = None \/ err = Some IoEof) /\
+    read_string (stream st) = (data, stream st', match err with None => true | Some _ => false end).
+Proof. exact read_string_b_exact. Qed.
+Print Assumptions C07_bufio_readstring_exact.
+
+(* a body of n bytes read through bufio.Reader.Read calls of any sizes (io.CopyN into a bytes.Buffer)
+   = io.ReadFull of the logical stream; short exactly when fewer than n bytes are left *)
+Theorem C07_bufio_body_exact :
+  forall cap, (1 <= cap)%nat -> forall ask n st,
+  (forall left, (1 <= left)%nat -> (1 <= ask left <= left)%nat) -> brd_wf st = true ->
+  match buf_read_n cap ask n n [] st with
+  | Some (Some body, st') => brd_wf st' = true /\ read_full (N.of_nat n) (stream st) = Some (body, stream st')
+  | Some (None, st') => read_full (N.of_nat n) (stream st) = None /\ brd_wf st' = true /\ stream st' = []
+  | None => False
+  end.
+Proof. exact buf_read_n_exact. Qed.
+Print Assumptions C07_bufio_body_exact.
+
+(* every client of the reader (any sequence of ReadString and sized body reads, each step depending on
+   the earlier results) computes on the buffered reader what it computes on the logical stream *)
+Theorem C07_bufio_clients_exact :
+  forall cap, (1 <= cap)%nat -> forall (R : Type) ask (p : rprog R),
+  (forall left, (1 <= left)%nat -> (1 <= ask left <= left)%nat) ->
+  forall st, brd_wf st = true ->
+  exists st', run_buf cap ask p st = Some (fst (run_exact p (stream st)), st') /\
+              brd_wf st' = true /\ stream st' = snd (run_exact p (stream st)).
+Proof. exact run_buf_exact. Qed.
+Print Assumptions C07_bufio_clients_exact.
+
+(* uripostDecoder.readBlock and the loop body of rawDecoder.Scan are such clients: run on a
+   bufio.Reader they give the block result of the models that C07_uripost_roundtrip /
+   C07_raw_roundtrip are about, and leave the reader at the model's rest *)
+Theorem C07_uripost_block_buffered :
+  forall cap ask url_parse h st,
+  (1 <= cap)%nat -> (forall left, (1 <= left)%nat -> (1 <= ask left <= left)%nat) -> brd_wf st = true ->
+  exists k st',
+    run_buf cap ask (read_block_prog url_parse h) st = Some (k, st') /\
+    k = ublk_of (read_block url_parse (stream st) h) /\ brd_wf st' = true /\
+    (forall r, ublock_rest (read_block url_parse (stream st) h) = Some r -> stream st' = r).
+Proof. exact read_block_buffered. Qed.
+Print Assumptions C07_uripost_block_buffered.
+
+Theorem C07_raw_block_buffered :
+  forall cap ask st,
+  (1 <= cap)%nat -> (forall left, (1 <= left)%nat -> (1 <= ask left <= left)%nat) -> brd_wf st = true ->
+  exists k st',
+    run_buf cap ask raw_block_prog st = Some (k, st') /\
+    k = rblk_of (raw_block (stream st)) /\ brd_wf st' = true /\
+    (forall r, rblock_rest (raw_block (stream st)) = Some r -> stream st' = r).
+Proof. exact raw_block_buffered. Qed.
+Print Assumptions C07_raw_block_buffered.
+
+(* non-vacuity and separation: buffer of 4 bytes, the source cut into Reads of 3 and 6 bytes, the
+   line "abcdefg\n" spans three buffer fills.  ReadString returns it whole; a ReadLine whose isPrefix
+   result is ignored returns the first buffer only and leaves the rest of the line in the reader. *)
+Example C07_bufio_example :
+  let st := brd_new [[97; 98; 99]; [100; 101; 102; 103; 10; 104]] in
+  brd_wf st = true /\
+  read_string_b 4 st =
+    RSData [97; 98; 99; 100; 101; 102; 103; 10] None {| b_buf := []; b_src := [[104]]; b_err := None |} /\
+  read_string (stream st) = ([97; 98; 99; 100; 101; 102; 103; 10], [104], true) /\
+  read_line_noprefix 4 st = RSData [97; 98; 99; 100] None {| b_buf := []; b_src := [[101; 102; 103; 10; 104]]; b_err := None |}.
+Proof. repeat split; vm_compute; reflexivity. Qed.
+
+(* Deliveries are independent objects.  For every schedule of instances (each event: the instance
+   acquires if it holds nothing, else shoots what it holds; the rest is shot at the end) over the
+   deliveries ds of the provider, with a fresh reader object per delivery: the requests as seen when
+   they are shot (immediate part + body read then) are, in acquisition order, exactly the deliveries —
+   a later Acquire never changes an earlier delivery. *)
+Theorem C07_deliveries_independent :
+  forall (A : Type) (evs : list nat) (ds : list (A * bytes)),
+  exists n, (n <= length ds)%nat /\ sched_obs Fresh evs ds = map Some (firstn n ds).
+Proof. exact sched_fresh_exact. Qed.
+Print Assumptions C07_deliveries_independent.
+
+Theorem C07_schedule_independent :
+  forall (A : Type) (evs1 evs2 : list nat) (ds : list (A * bytes)),
+  length (sched_obs Fresh evs1 ds) = length (sched_obs Fresh evs2 ds) ->
+  sched_obs Fresh evs1 ds = sched_obs Fresh evs2 ds.
+Proof. exact sched_fresh_schedule_independent. Qed.
+Print Assumptions C07_schedule_independent.
+
+(* non-vacuity and separation: two instances acquire, then both shoot.  Fresh readers: both bodies as
+   delivered.  A reader object recycled when the decoding function returns (Pooled): the first
+   instance sends the body of the second delivery. *)
+Example C07_sched_example :
+  let ds := [(1%nat, [65; 65]); (2%nat, [66])] in
+  sched_obs Fresh [0; 1; 0; 1]%nat ds = map Some ds /\
+  sched_obs Fresh [0; 0; 0; 0]%nat ds = map Some ds.
+Proof. split; vm_compute; reflexivity. Qed.
+
+Example C07_pooled_reader_refuted :
+  exists (evs : list nat) (ds : list (nat * bytes)),
+    sched_obs Pooled evs ds = [Some (1%nat, [66]); Some (2%nat, [66])] /\
+    sched_obs Pooled evs ds <> map Some ds.
+Proof.
+  exists [0; 1; 0; 1]%nat, [(1%nat, [65; 65]); (2%nat, [66])]. split; [vm_compute; reflexivity|].
+  vm_compute. discriminate.
+Qed.
